@@ -759,12 +759,17 @@ class Interp:
         if op in ("or", "and", "sub") and (isinstance(a, SymSet) or isinstance(b, SymSet)):
             sa, sb = self.as_set(a), self.as_set(b)
             return SymSet({"or": z3.SetUnion, "and": z3.SetIntersect, "sub": z3.SetDifference}[op](sa, sb))
+        h = self.builtin_handlers.get("__binop_hook__")
+        if h is not None and not isinstance(a, SymNode):
+            # the left operand's own method is tried first (a hook may know the class of an opaque left operand)
+            r = h(self, op, a, b)
+            if r is not None:
+                return r
         if isinstance(a, SymNode) or isinstance(b, SymNode):
             r = self.node_binop(op, a, b)
             if r is not NotImplemented:
                 return r
-        h = self.builtin_handlers.get("__binop_hook__")
-        if h is not None:
+        if h is not None and isinstance(a, SymNode):
             r = h(self, op, a, b)
             if r is not None:
                 return r
@@ -1042,6 +1047,11 @@ class Interp:
             sa, sb = self.as_str(a), self.as_str(b)
             if sa is not None and sb is not None and op in ("eq", "ne"):
                 return SymBool(sa == sb if op == "eq" else sa != sb)
+        h = self.builtin_handlers.get("__cmp_contract__")       # assumed contract of __eq__/__ne__ on nodes, when installed
+        if h is not None:
+            r = h(self, op, a, b)
+            if r is not None:
+                return r
         if op in ("eq", "ne"):
             r = self.structural_eq(a, b)
             if r is not None:
